@@ -390,6 +390,10 @@ func searchRace(rep *report, d diag, budget time.Duration, g *lib.Rng) (bool, ev
 	relayFallback := func(secs int) (bool, evidence) {
 		ev.Tried = append(ev.Tried, fmt.Sprintf("full relay under 16 clients (race build, %ds)", secs))
 		out := runRelayChild(secs, int64(g.Intn(1<<30)))
+		if i := strings.Index(out, "@@GHOST "); i >= 0 && d.Kind == "channel-capacity" {
+			ev.Store, ev.A, ev.B, ev.Mode, ev.Evidence = store, method, "(full relay, short-lived connections)", "race", strings.SplitN(out[i:], "\n", 2)[0]
+			return true, ev
+		}
 		if i := strings.Index(out, "@@NOTATOMIC "); i >= 0 && d.Kind == "handler-not-all-or-nothing" {
 			ev.Store, ev.A, ev.B, ev.Mode, ev.Evidence = store, method, "(full relay, abandoned callers)", "race", strings.SplitN(out[i:], "\n", 2)[0]
 			return true, ev
@@ -621,6 +625,16 @@ func stressRelay(res *lib.Result, rep *report, args lib.Args, g *lib.Rng) {
 	} else {
 		res.Notes = append(res.Notes, "relay stress did not report: "+tail(out, 400))
 	}
+	if i := strings.Index(out, "@@GHOST "); i >= 0 {
+		line := strings.SplitN(out[i+len("@@GHOST "):], "\n", 2)[0]
+		res.Violate(lib.Violation{Clause: "member-that-is-not-connected", Case: -1, Key: "ghost:shortlived",
+			Detail: line, Replay: replayCase{Kind: "relay", Mode: "mix", Evidence: "@@GHOST " + line}})
+	}
+	if m := regexp.MustCompile(`@@GHOSTS done shortlived=(\d+)`).FindStringSubmatch(out); m != nil {
+		var n int
+		fmt.Sscan(m[1], &n)
+		res.CountN("relay_short_lived_connections_all_deregistered", n)
+	}
 	if i := strings.Index(out, "@@NOTATOMIC "); i >= 0 {
 		line := strings.SplitN(out[i+len("@@NOTATOMIC "):], "\n", 2)[0]
 		res.Violate(lib.Violation{Clause: "request-not-all-or-nothing", Case: -1, Key: "notatomic:abandoned-deny",
@@ -842,6 +856,123 @@ func abandonedDeny(r *lib.Relay, admin string) string {
 				return fmt.Sprintf("POST /bids/deny?bid=%s from a caller that went away without waiting for the answer: the booking IS on the deny list, but its live connection was still open 2 s later - the request took effect in part (no order of complete requests gives deny-listed + still connected)", bid)
 			}
 		}
+	}
+	return ""
+}
+
+var shortLived int
+
+// ghostMembers: connections whose peer goes away right after the upgrade, many at once, while the hub is held up by
+// status reports (hub.mu read-locked) and a fan-out; when all of them are gone nobody of their topic may still be
+// listed by /status (a member that is not connected = the registration was handled after the de-registration).
+func ghostMembers(r *lib.Relay, admin, stats string, g *lib.Rng) string {
+	stop := make(chan struct{})
+	var bg sync.WaitGroup
+	for k := 0; k < 2; k++ { // status reports hold the hub's read lock
+		bg.Add(1)
+		go func() {
+			defer bg.Done()
+			for {
+				select {
+				case <-stop:
+					return
+				default:
+					r.Status(stats)
+				}
+			}
+		}()
+	}
+	now := time.Now().Unix()
+	dial := func(topic, bid string) *websocket.Conn {
+		tok := lib.Sign(r.Claims(topic, bid, []string{"read", "write"}, now-2, now-2, now+60), r.Secret)
+		st, uri, _ := r.Session(topic, tok)
+		if st != 200 {
+			return nil
+		}
+		ws, _, err := lib.Dial(uri, nil)
+		if err != nil {
+			return nil
+		}
+		return ws
+	}
+	// a fan-out keeps the hub's loop busy
+	var fan []*websocket.Conn
+	for k := 0; k < 6; k++ {
+		if ws := dial("fanout", fmt.Sprintf("fan-%d", k)); ws != nil {
+			fan = append(fan, ws)
+			go func(ws *websocket.Conn) {
+				for {
+					if _, _, err := ws.ReadMessage(); err != nil {
+						return
+					}
+				}
+			}(ws)
+		}
+	}
+	if len(fan) > 0 {
+		bg.Add(1)
+		go func() {
+			defer bg.Done()
+			payload := make([]byte, 16*1024)
+			for {
+				select {
+				case <-stop:
+					return
+				default:
+					if fan[0].WriteMessage(websocket.BinaryMessage, payload) != nil {
+						return
+					}
+				}
+			}
+		}()
+	}
+	var wg sync.WaitGroup
+	var n int64
+	for c := 0; c < 12; c++ {
+		wg.Add(1)
+		go func(c int, gg *lib.Rng) {
+			defer wg.Done()
+			for k := 0; k < 25; k++ {
+				ws := dial("ghostT", fmt.Sprintf("ghost-%d-%d", c, k))
+				if ws == nil {
+					continue
+				}
+				atomic.AddInt64(&n, 1)
+				if gg.Bool() {
+					ws.UnderlyingConn().Close() // gone without a word
+				} else {
+					ws.Close()
+				}
+			}
+		}(c, g.Fork())
+	}
+	wg.Wait()
+	close(stop)
+	bg.Wait()
+	for _, ws := range fan {
+		ws.Close()
+	}
+	shortLived = int(n)
+	listed := func() int {
+		reps, code := r.Status(stats)
+		if code != 200 {
+			return 0
+		}
+		k := 0
+		for _, e := range reps {
+			if t, _ := e["topic"].(string); t == "ghostT" {
+				k++
+			}
+		}
+		return k
+	}
+	time.Sleep(500 * time.Millisecond)
+	if listed() == 0 {
+		return ""
+	}
+	time.Sleep(1500 * time.Millisecond)
+	if k := listed(); k > 0 {
+		return fmt.Sprintf("%d connection(s) of topic ghostT are still listed by /status 2 s after every one of the %d connections made on that topic had been closed by its peer right after the upgrade (while status reports and a fan-out kept the hub busy): members that are not connected", k, n)
 	}
 	return ""
 }
@@ -1081,6 +1212,10 @@ func childRelay(a []string) {
 	wg.Wait()
 	fmt.Fprintf(os.Stderr, "@@RELAY sessions=%d conns=%d msgs=%d admin=%d\n", sessions, conns, msgs, adm)
 	if mode == "mix" {
+		if bad := ghostMembers(r, admin, stats, g.Fork()); bad != "" {
+			fmt.Fprintf(os.Stderr, "@@GHOST %s\n", bad)
+		}
+		fmt.Fprintf(os.Stderr, "@@GHOSTS done shortlived=%d\n", shortLived)
 		// now that the code store holds the thousands of codes of the load above (a purge takes a while)
 		if bad := abandonedDeny(r, admin); bad != "" {
 			fmt.Fprintf(os.Stderr, "@@NOTATOMIC %s\n", bad)
